@@ -105,10 +105,20 @@ def lacksAttr (w : String) (b : Bead K) : Bool :=
   | some g => g.any fun a => (assoc a.attrs w).isNone
   | none => false
 
+/-- first loop: some particle with a graph has an atom without the centre-weight attribute -/
+def keyErr (weight : Option String) (mol : List (Bead K)) : Bool :=
+  match weight with
+  | some w => mol.any (lacksAttr w)
+  | none => false
+
+/-- after the first loop: particles without graph and not told to ignore them -/
+def valErr (ignoreMissing : Bool) (mol : List (Bead K)) : Bool :=
+  !ignoreMissing && mol.any (fun b => b.graph.isNone)
+
 def doAverageBead (eps : K) (mol : List (Bead K)) (ignoreMissing : Bool) (weight : Option String) :
     Outcome K :=
-  if (match weight with | some w => mol.any (lacksAttr w) | none => false) then .keyError
-  else if !ignoreMissing && mol.any (fun b => b.graph.isNone) then .valueError
+  if keyErr weight mol then .keyError
+  else if valErr ignoreMissing mol then .valueError
   else .ok (mol.map fun b => b.graph.map fun g => beadPos eps weight g b.weights)
 
 /-- the `weight` argument of `DoAverageBead`: `None`, `False`, or an attribute name -/
